@@ -96,7 +96,16 @@ DataTrees == {[kind |-> "tree", files |-> <<F("components/who", "[{{ who }}:{{ n
                ds \in {<<<<DStr("who", "A"), DInt("n", 1)>>, <<DStr("who", "B"), DInt("n", 2)>>, <<DStr("who", "A"), DInt("n", 1)>>>>,
                        <<<<DStr("who", "A"), DInt("n", 1)>>, <<DStr("who", "B")>>, <<DInt("n", 3)>>>>,
                        <<<<DInt("who", 5), DInt("n", 1)>>, <<DStr("who", "s"), DStr("n", "t")>>>>}}
-Cases == RenderCases \cup TreeCases \cup SeqCases \cup DataTrees
+\* several template directories loaded one after the other in one process: files of the same names with other content. What a
+\* directory renders is what ITS files say - the model's answer per step, whatever was loaded before
+TreeOf3(c, l, p) == <<F("components/c", c), F("layouts/main", l \o "[@reserve(\"x\")]"), F("home", "@use(\"~main\")@insert(\"x\")" \o p \o "<@component(\"~c\")>@end")>>
+Step3(c, l, p) == [files |-> TreeOf3(c, l, p), want |-> "OUT " \o l \o "[" \o p \o "<" \o c \o ">]"]
+TreeSeqs == {[kind |-> "treeseq", tsteps |-> st, cfg |-> [dir |-> "t", ext |-> ".tw"], page |-> "home", tags |-> <<"c14", "directories-in-a-row">>] :
+               st \in {<<Step3("A", "L1", "p"), Step3("B", "L1", "p"), Step3("A", "L1", "p")>>,
+                       <<Step3("A", "L1", "p"), Step3("A", "L2", "p"), Step3("A", "L1", "q")>>,
+                       <<Step3("one", "L", "p"), Step3("", "L", "p"), Step3("two", "", "")>>,
+                       <<Step3("B", "L2", "q"), Step3("A", "L1", "p")>>}}
+Cases == RenderCases \cup TreeCases \cup SeqCases \cup DataTrees \cup TreeSeqs
 Init == cas \in Cases /\ rec = FALSE
 Next == ~rec /\ rec' = TRUE /\ UNCHANGED cas
 Spec == Init /\ [][Next]_vars
